@@ -9,6 +9,7 @@ from ..engine import Ctx
 from ..model import AnalysisError, ClassInfo, FuncInfo, dotted, unparse
 from . import common as C
 from .shared import _mentions
+from .brokers import redis_op_fields
 
 SUMMARY = "Writer/reader table agreement: codecs vs field types, job settings vs constructor keywords, wire keys per broker, falsy substitutions, name alphabet vs key separators, bucket marker."
 DECIDED = [
@@ -262,22 +263,7 @@ def wire(ctx: Ctx, rule="R-C07-WIRE") -> None:
     ctx.check(written.get("payload") == {"payload"}, rule, C.REDIS_BROKER, "redis 'payload' field <- payload", "payload", f"redis 'payload' field is written from {written.get('payload')}", instance="redis payload source")
     ctx.check(written.get("parameters") == {"params.encode()"}, rule, C.REDIS_BROKER, "redis 'parameters' field <- params.encode()", "params.encode()",
               f"redis 'parameters' field is written from {written.get('parameters')}", instance="redis parameters source")
-    for op, call_attr in (("enqueue", "hsetnx"), ("requeue", "hset")):
-        of = ctx.func(f"{C.REDIS_BROKER}.{op}")
-        w = {}
-        for c in ast.walk(of.node):
-            if isinstance(c, ast.Call) and isinstance(c.func, ast.Attribute) and c.func.attr in ("hsetnx", "hset"):
-                if len(c.args) >= 3 and isinstance(c.args[1], ast.Constant):
-                    w[c.args[1].value] = (unparse(c.args[0]), unparse(c.args[2]))
-                mp = C.kw(c, "mapping")
-                if isinstance(mp, ast.Dict):
-                    for k, v in zip(mp.keys, mp.values):
-                        if isinstance(k, ast.Constant):
-                            w[k.value] = (unparse(c.args[0]) if c.args else "", unparse(v))
-        ok = w == {"payload": ("mnc(key)", "payload"), "parameters": ("mnc(key)", "params.encode()")}
-        ctx.check(ok, rule, of, f"redis {op} writes payload and parameters of the message's own hash", "mnc(key): payload, params.encode()",
-                  f"redis {op} writes {w}: the {'re-queued' if op == 'requeue' else 'enqueued'} message does not carry its {'new ' if op == 'requeue' else ''}payload and parameters",
-                  instance=f"redis {op} fields")
+    redis_op_fields(ctx, rule)
     d = ctx.func(f"{C.REDIS_CONS}.__get_message_details")
     rets = [r for r in ast.walk(d.node) if isinstance(r, ast.Return) and isinstance(r.value, ast.Tuple)]
     ctx.require(len(rets) == 1 and len(rets[0].value.elts) == 3, f"{d.qualname}: (key, payload, parameters) return not found")
